@@ -3,9 +3,10 @@
   Property theorems only; helper lemmas live in Tranp/Lemmas/DI.lean.
 -/
 import Tranp.Lemmas.DI
+import Tranp.Generated.DIWiring
 
 namespace Tranp.C19
-open Tranp Tranp.DI
+open Tranp Tranp.DI Tranp.Generated.DIWiring
 
 /-! ### witnesses used by the examples and counterexamples (the same factories as harness/c19.py) -/
 
@@ -423,5 +424,158 @@ example :
 example :
     (run 8 (run 8 State.init miniOps).1 [.on 2 (.resolve ⟨5, false⟩), .on 0 (.resolve ⟨5, false⟩), .on 4 (.resolve ⟨5, false⟩)]).2
       = [.obj ⟨11, 15, []⟩, .obj ⟨12, 15, []⟩, .obj ⟨13, 15, []⟩] := by decide
+
+/-! ### the shipped wiring (GENERATED: Tranp/Generated/DIWiring.lean from app/config.py, providers/app.py,
+    providers/syntax/entrypoints.py on every run) -/
+
+/-- the generated statement lists of `di_container` / `handler` are the derived operations the isolation theorems speak about -/
+theorem production_wiring (s n : Nat) (mp : Factory) :
+    diContainerGen n prodDefs = diContainerOps prodRoles n prodDefs ∧
+    handlerGen s n prodDeps mp = loadModuleOps prodRoles s n prodDeps mp := ⟨rfl, rfl⟩
+
+/-- symbols a table binds -/
+def keysOf (t : List (Nat × Injector)) : List Nat := t.map (·.1)
+
+/-- every annotated parameter of every factory in `t` is a symbol of `bound` -/
+def closedIn (t : List (Nat × Injector)) (bound : List Nat) : Bool :=
+  t.all fun kv => kv.2.facs.all fun f => (pluck f).all fun a => bound.contains a.accept
+
+/-- the shipped wiring is closed: every annotated parameter of every shared factory is bound in the shared container,
+    every annotated parameter of every per-module factory is bound in a module container; and the per-module symbols
+    (and ModulePath) are disjoint from the shared ones — the side condition under which combine was safe even before 6d5a231 -/
+theorem production_closed :
+    closedIn prodDefs (prodRoles.locator :: prodRoles.invoker :: keysOf prodDefs) = true ∧
+    closedIn prodDeps (prodRoles.locator :: prodRoles.invoker :: prodRoles.modulePath :: (keysOf prodDeps ++ keysOf prodDefs)) = true ∧
+    (prodDefs.all fun kv => !(keysOf prodDeps).contains kv.1 && kv.1 != prodRoles.modulePath) = true := by
+  decide +kernel
+
+/-- the production dependency graph is acyclic: the generated rank certificate is respected by every binding `di_container`
+    and `handler` make, on any heap and for any shared container -/
+theorem production_acyclic (s n : Nat) (mp : Factory) (hmp : mp.params = []) :
+    (∀ op ∈ diContainerOps prodRoles n prodDefs, op.BindsP (RankP prodRank)) ∧
+    (∀ op ∈ loadModuleOps prodRoles s n prodDeps mp, op.BindsP (RankP prodRank)) := by
+  have h1 : rankedB prodRank prodDefs = true := by decide +kernel
+  have h2 : rankedB prodRank prodDeps = true := by decide +kernel
+  constructor
+  · intro op hop
+    simp only [diContainerOps, List.mem_cons, List.mem_nil_iff, or_false] at hop
+    rcases hop with rfl | rfl | rfl
+    · exact rankedB_binds h1
+    · exact RankP_nil _ _ _ rfl
+    · exact RankP_nil _ _ _ rfl
+  · intro op hop
+    simp only [loadModuleOps, List.mem_append, List.mem_map, List.mem_cons, List.mem_nil_iff, or_false] at hop
+    rcases hop with ⟨x, _, rfl⟩ | rfl | rfl | rfl | rfl | rfl | rfl
+    · trivial
+    · exact rankedB_binds h2
+    · trivial
+    · exact RankP_nil _ _ _ rfl
+    · exact RankP_nil _ _ _ rfl
+    · exact RankP_nil _ _ _ hmp
+    · trivial
+
+/-- hence resolution terminates without the fuel: in every history made of `di_container` / `handler` blocks (any heap
+    positions, any interleaving) and ops that bind nothing new outside the rank, `resolve` with more fuel than the longest
+    production chain never runs out of fuel -/
+theorem production_terminates (fuel : Nat) (ops : List Op) (c : Nat) (r : SymRef) (hf : maxRank < fuel)
+    (hops : ∀ op ∈ ops, (∃ n, op ∈ diContainerOps prodRoles n prodDefs) ∨
+      (∃ s n mp, mp.params = [] ∧ op ∈ loadModuleOps prodRoles s n prodDeps mp) ∨ op.BindsP (RankP prodRank)) :
+    (step fuel (run fuel State.init ops).1 (.on c (.resolve r))).2 ≠ .err .recursionError := by
+  have hb : ∀ op ∈ ops, op.BindsP (RankP prodRank) := by
+    intro op hop
+    rcases hops op hop with ⟨n, h⟩ | ⟨s, n, mp, hmp, h⟩ | h
+    · exact (production_acyclic 0 n ⟨0, 0, []⟩ rfl).1 op h
+    · exact (production_acyclic s n mp hmp).2 op h
+    · exact h
+  have hr : prodRank r.accept ≤ maxRank := lookup_getD_le rankTable maxRank r.accept (by decide +kernel)
+  exact (fuel_sufficient fuel ops c prodRank hb).1 r (by omega)
+
+/-- `lambda: module_path` of two module loads -/
+def mpA : Factory := ⟨9001, 9001, []⟩
+def mpB : Factory := ⟨9002, 9002, []⟩
+
+/-- production in the model: `di_container(default_definitions())`, then two `handler(module_path)` calls; the shared
+    container is 0, the per-module containers are 2 and 4 -/
+def prodOps : List Op := diContainerGen 0 prodDefs ++ handlerGen 0 1 prodDeps mpA ++ handlerGen 0 3 prodDeps mpB
+def prodFuel : Nat := maxRank + 1
+def prodState : State := (run prodFuel State.init prodOps).1
+def localSyms : List Nat := prodRoles.locator :: prodRoles.invoker :: prodRoles.modulePath :: prodDeps.map (·.1)
+
+/-- every statement of `di_container` and of both `handler` calls succeeds on the shipped definitions, and afterwards every
+    shared definition can be resolved in the shared container and every symbol at all in a module container -/
+theorem production_run_succeeds :
+    ((run prodFuel State.init prodOps).2.all Out.isFine = true) ∧
+    ((prodDefs.map (·.1)).all (fun x => (step prodFuel prodState (.on 0 (.resolve ⟨x, false⟩))).2.isObj) = true) ∧
+    ((List.range symCount).all (fun x => (step prodFuel prodState (.on 4 (.resolve ⟨x, false⟩))).2.isObj) = true) := by
+  decide +kernel
+
+/-- `combine_shares` on the shipped wiring: the three symbols `handler` pre-resolves are one object for the shared
+    container and for both module containers -/
+theorem production_combine_shares :
+    prodRoles.preResolved.all (fun x =>
+      (step prodFuel prodState (.on 0 (.resolve ⟨x, false⟩))).2.isObj &&
+      (step prodFuel prodState (.on 2 (.resolve ⟨x, false⟩))).2 == (step prodFuel prodState (.on 0 (.resolve ⟨x, false⟩))).2 &&
+      (step prodFuel prodState (.on 4 (.resolve ⟨x, false⟩))).2 == (step prodFuel prodState (.on 0 (.resolve ⟨x, false⟩))).2) = true := by
+  decide +kernel
+
+/-- module-local symbols on the shipped wiring: the shared container does not know the per-module definitions nor
+    ModulePath; both module containers hold their own, different instances of each; Locator / Invoker of a module
+    container are the closures over that container -/
+theorem production_locals_isolated :
+    ((prodRoles.modulePath :: prodDeps.map (·.1)).all (fun x =>
+      (step prodFuel prodState (.on 0 (.can ⟨x, false⟩))).2 == .bool false &&
+      (instOf (abs prodState) 2 x).isSome && (instOf (abs prodState) 4 x).isSome &&
+      (instOf (abs prodState) 2 x).map (·.id) != (instOf (abs prodState) 4 x).map (·.id)) = true) ∧
+    ([0, 2, 4].all (fun k =>
+      (match (step prodFuel prodState (.on k (.resolve ⟨prodRoles.invoker, false⟩))).2 with
+       | .obj o => o.fid == (invokerFactory k).fid
+       | _ => false) &&
+      (match (step prodFuel prodState (.on k (.resolve ⟨prodRoles.locator, false⟩))).2 with
+       | .obj o => o.fid == (locatorFactory k).fid
+       | _ => false)) = true) := by
+  decide +kernel
+
+/-- production does not use late sharing: after the loads, whatever instance a module container holds for a symbol
+    that is not module-local is the very instance the shared container holds -/
+theorem production_no_private_copies :
+    [2, 4].all (fun m => (List.range symCount).all (fun x =>
+      localSyms.contains x || (instOf (abs prodState) m x).isNone || instOf (abs prodState) m x == instOf (abs prodState) 0 x)) = true := by
+  decide +kernel
+
+/-- The annotation cache is invisible, also under later bind / unbind: two reachable states with the same abstract state
+    (same bindings, instances and counter — whatever was invoked before, successfully or not) react identically to every
+    op. (A cache of the curried prefix per factory that is not invalidated by bind / unbind would break this; such a
+    seeded mutation is caught by the search.) -/
+theorem invoke_sees_current_bindings (fuel : Nat) (ops1 ops2 : List Op) (op : Op)
+    (h : abs (run fuel State.init ops1).1 = abs (run fuel State.init ops2).1) :
+    abs (step fuel (run fuel State.init ops1).1 op).1 = abs (step fuel (run fuel State.init ops2).1 op).1 ∧
+    (step fuel (run fuel State.init ops1).1 op).2 = (step fuel (run fuel State.init ops2).1 op).2 := by
+  have w1 := reach_wf fuel ops1
+  have w2 := reach_wf fuel ops2
+  rw [step_abs w1, step_abs w2, step_out w1, step_out w2, h]
+  exact ⟨rfl, rfl⟩
+
+/-- non-vacuity: the second history has a failed invoke more (its cache knows `f8`), the abstract states agree, the
+    concrete ones do not -/
+example :
+    abs (run 3 State.init [.newDI, .on 0 (.bind s0 f0)]).1 = abs (run 3 State.init [.newDI, .on 0 (.invoke f8 []), .on 0 (.bind s0 f0)]).1 ∧
+    (run 3 State.init [.newDI, .on 0 (.bind s0 f0)]).1 ≠ (run 3 State.init [.newDI, .on 0 (.invoke f8 []), .on 0 (.bind s0 f0)]).1 := by
+  constructor
+  · simp only [abs, Spec.mk.injEq]
+    refine ⟨?_, by decide⟩
+    have : (run 3 State.init [.newDI, .on 0 (.bind s0 f0)]).1.conts.map absC
+        = (run 3 State.init [.newDI, .on 0 (.invoke f8 []), .on 0 (.bind s0 f0)]).1.conts.map absC := by
+      simp only [run, step, stepCont, State.init, List.nil_append, List.getElem?_cons_zero, List.set_cons_zero, List.map_cons, List.map_nil]
+      congr 1
+    exact this
+  · decide
+
+/-- the curried prefix follows the bindings of the moment: `f8(x: S0)` takes its argument while `S0` is unbound, the
+    instance once it is bound (an argument is then surplus: ValueError), and its argument again after the unbind -/
+example :
+    (run 3 State.init [.newDI, .on 0 (.invoke f8 [⟨1, 0⟩]), .on 0 (.bind s0 f0), .on 0 (.invoke f8 []), .on 0 (.invoke f8 [⟨2, 0⟩]),
+      .on 0 (.unbind s0), .on 0 (.invoke f8 []), .on 0 (.invoke f8 [⟨3, 0⟩])]).2
+    = [.cont 0, .obj ⟨0, 8, [.ext 1]⟩, .ok, .obj ⟨2, 8, [.inst 1]⟩, .err .valueError, .ok, .err .valueError, .obj ⟨3, 8, [.ext 3]⟩] := by
+  decide
 
 end Tranp.C19
